@@ -64,5 +64,9 @@ def run(chk):
     okg = bool(gate) and all("abs" in (e.left.tags | e.right.tags) for e in gate)
     chk.ob("R-CAVDP", c + "[gate-operand]", "the gate tests the window's peak |a|", okg,
            derived="%d gate comparison(s)" % len(gate), loc=gate[0].loc if gate else r.fi.loc())
+    chk.ob("R-CAVDP", c + "[gate-window]", "the gated peak is taken over the whole window, not over a masked/selected subset of it",
+           bool(gate) and not any("where-index" in (e.left.tags | e.right.tags) for e in gate),
+           derived="gate operand passes through an index/mask selection" if any("where-index" in (e.left.tags | e.right.tags) for e in gate) else "whole window",
+           loc=gate[0].loc if gate else r.fi.loc())
     chk.floor("R-IM-TYPE", 70)
     chk.floor("R-CAVDP", 8)
